@@ -30,6 +30,8 @@ func checkC09(c *Ctx) {
 	c.Rule("C09-R5", "every control string the screen emits, for every ECMA-48-family database entry, tokenizes as complete control sequences with numeric parameters and no residue")
 	c.Rule("C09-R6", "integer arguments of TParm calls in the screen are provably non-negative")
 	c.Rule("C09-R7", "go-runewidth's EastAsianWidth is switched off at init unless RUNEWIDTH_EASTASIAN is set; no other store to that condition")
+	c.Rule("C09-R11", "format characters (Unicode Cf: bidi controls and isolates, word joiner, tags ...) never count as printable: the width given to a cell's rune goes through a function that answers 0 for them before asking the width tables (go-runewidth gives some of them a column)")
+	c.Expect("C09-R11", 2)
 	c.Rule("C09-R10", "the colour strings LookupTerminfo synthesises for NAME-256color / NAME-truecolor are well-formed and denote non-negative SGR parameters for every index")
 	c.Expect("C09-R10", 8)
 	c.Rule("C09-R9", "encoder output is appended to the cell payload only where its first byte was tested against SUB (0x1a), for every encoder call in encodeRune (primary and combining runes alike)")
@@ -43,7 +45,7 @@ func checkC09(c *Ctx) {
 	c.Expect("C09-R5", 1000)
 	c.Expect("C09-R6", 15)
 	c.Expect("C09-R7", 1)
-	c.Assume("go-runewidth with EastAsianWidth off reports width 0 for C0, DEL, C1, zero-width/format characters and out-of-range values")
+	c.Assume("go-runewidth with EastAsianWidth off reports width 0 for C0, DEL, C1, combining/zero-width characters and out-of-range values (format characters are handled by the library itself, C09-R11)")
 	c.Assume("combining rune lists contain only zero-width non-control marks (the statement's own restriction)")
 	if err := tpSelfTest(); err != nil {
 		c.Undecided("C09-R5", "self-test", "-", err.Error())
@@ -67,6 +69,7 @@ func checkC09(c *Ctx) {
 	c09Runewidth(c, p)
 	tputsSegmentsRule(c, p, "C09-R8")
 	c09Sub(c, p)
+	c09FormatChars(c, p)
 	c.asRule("C14-R5", "C09-R10", func() { c14Lookup(c, p) })
 }
 
@@ -799,5 +802,40 @@ func c09Sub(c *Ctx, p *Prog) {
 	})
 	if n == 0 {
 		c.Undecided("C09-R9", "encodeRune:encoder-call", p.pos(fn.Pos()), "no Transform call")
+	}
+}
+
+// c09FormatChars: see C09-R11.
+func c09FormatChars(c *Ctx, p *Prog) {
+	n := 0
+	for _, fn := range p.modFns {
+		if fn.Pkg != p.Tcell || recvTypeName(topFunc(fn)) != "tcell.CellBuffer" {
+			continue
+		}
+		for _, ws := range storesTo(fn, cellOwner, "width") {
+			call, ok := ws.Val.(*ssa.Call)
+			if !ok {
+				continue
+			}
+			n++
+			key := fn.Name() + ":width-blanks-format-characters"
+			f := staticCallee(&call.Call)
+			ok2, detail := false, "the width comes straight from "+calleeName(&call.Call)+": U+2066..2069, U+2060, U+061C, tag characters keep a column and are written to the terminal"
+			if f != nil && f.Pkg == p.Tcell {
+				for _, r := range returnsOf(f) {
+					if k, isK := constInt(r.Results[0]); isK && k == 0 {
+						for _, g := range rawGuardsAt(r.Block()) {
+							if gc, isCall := g.Cond.(*ssa.Call); isCall && g.Positive && calleeName(&gc.Call) == "unicode.Is" && strings.HasSuffix(valName(gc.Call.Args[0]), "Cf") {
+								ok2, detail = true, f.Name()+" answers 0 for unicode.Cf before consulting the width tables"
+							}
+						}
+					}
+				}
+			}
+			c.Check(ok2, "C09-R11", key, p.pos(ws.Pos()), detail)
+		}
+	}
+	if n == 0 {
+		c.Undecided("C09-R11", "width stores", "-", "no computed width store found")
 	}
 }
